@@ -526,6 +526,24 @@ impl Gen<'_> {
 					let b = self.obj_lit(d, true);
 					format!("({a} + {b})")
 				}
+				3 if self.rng.chance(1, 3) => {
+					// ONE object value (with its locals, asserts and super references) sitting at two
+					// layers of the same chain
+					self.note("mixin-twice");
+					let a = self.expr(Ty::Obj, d);
+					let m = self.fresh("mx");
+					let b = if self.rng.chance(1, 2) {
+						self.obj_lit(d, true)
+					} else {
+						// a layer whose fields reach `super` through a context that also holds an object local
+						let l = self.fresh("ol");
+						let e = self.expr(Ty::Num, 0);
+						let e = self.traced(e);
+						format!("{{ local {l} = {e}, a: super.a + {l}, b+: {l}, h:: if \"h\" in super then super.h else 0 }}")
+					};
+					let a = if self.rng.chance(1, 2) { a } else { format!("({{ a: 1, b: 2 }} + {a})") };
+					if self.rng.chance(1, 2) { format!("(local {m} = {b}; ({a} + {m} + {m}))") } else { format!("(local {m} = {b}; ({a} + {m} + {{ a+: 1 }} + {m}))") }
+				}
 				3 => {
 					self.note("objext");
 					let a = self.expr(Ty::Obj, d);
@@ -555,7 +573,15 @@ impl Gen<'_> {
 		if self.rng.chance(1, 4) {
 			let l = self.fresh("ol");
 			let e = self.expr(Ty::Num, d);
+			// the local's body is traced: it is evaluated once per object however many fields and
+			// assertions of that object use it
+			let e = self.traced(e);
 			parts.push(format!("local {l} = {e}"));
+			if self.rng.chance(1, 2) {
+				self.note("objlocal-shared-by-assert-and-field");
+				parts.push(format!("assert {l} == {l} || true : \"loc\""));
+				parts.push(format!("c: {l}"));
+			}
 			locals.push(l.clone());
 			self.vars.push((l, Ty::Num));
 		}
